@@ -330,7 +330,12 @@ def _c08_cases(tier, seed):
     rnd = random.Random(seed + 8)
     n = 30 if tier == "quick" else 300
     for i in range(n):
-        yield {"rs": rnd.randrange(10 ** 9), "which": ["custom", "mink", "fourier", "msm_id", "msm_iv", "gsl", "lik"][i % 7]}
+        yield {"rs": rnd.randrange(10 ** 9),
+               "which": ["custom", "mink", "fourier", "msm_id", "msm_iv", "gsl", "lik", "msm_user"][i % 8]}
+
+
+def _view_moments(ts):
+    return ts[::3]
 
 
 def _mk_loss(which, weights, filters):
@@ -355,6 +360,10 @@ def _mk_loss(which, weights, filters):
     if which == "msm_iv":
         return MethodOfMomentsLoss(covariance_mat="inverse_variance", coordinate_weights=weights,
                                    coordinate_filters=filters)
+    if which == "msm_user":
+        # a user moment calculator that hands back a VIEW of the series it was given, with standardisation
+        return MethodOfMomentsLoss(moment_calculator=_view_moments, standardise_moments=True,
+                                   coordinate_weights=weights, coordinate_filters=filters)
     if which == "gsl":
         return GslDivLoss(nb_values=4, nb_word_lengths=3, coordinate_weights=weights, coordinate_filters=filters)
     return LikelihoodLoss(coordinate_weights=weights, coordinate_filters=filters)
@@ -380,6 +389,16 @@ def _c08_check(reg, case):
         v2 = L.compute_loss(sim, real)
         if not (v1 == v2 or (np.isnan(v1) and np.isnan(v2))):
             return f"{which}: the same evaluation gave {v1!r} then {v2!r} after an unrelated evaluation (state kept)"
+        # the caller refills its real-data BUFFER in place (same object, same address, new content): the value must be the
+        # one a fresh loss object gives on the new content
+        buf = real.copy()
+        L.compute_loss(sim, buf)
+        buf[...] = other_r
+        v3 = L.compute_loss(sim, buf)
+        v3f = _mk_loss(which, weights if which != "lik" else None, filters).compute_loss(sim, other_r.copy())
+        if not (v3 == v3f or (np.isnan(v3) and np.isnan(v3f))):
+            return (f"{which}: after the caller refilled its real-data buffer in place the loss object returns {v3!r}, a "
+                    f"fresh object returns {v3f!r} on the same data (state kept between evaluations)")
         # wrong lengths are rejected
         for bad_w, bad_f in ((np.ones(D + 1), None), (None, [None] * (D + 1))):
             try:
